@@ -59,7 +59,10 @@ func (sh *sipHash) compute() uint64 {
 	b := uint64(length) << 56
 
 	var index int
-	end := ((sh.length - 1) / 8) * 8
+	// all complete 8-byte blocks go through the loop; the 0..7 bytes left over share the
+	// final block with the length (a complete block placed there would have its first byte
+	// merged with the length byte: "0aaaaaaa" and "8aaaaaaa" hashed alike)
+	end := (sh.length / 8) * 8
 	for index = 0; index < end; index += 8 {
 		m := binary.LittleEndian.Uint64(sh.data[index:])
 
